@@ -186,6 +186,7 @@ def observe(cmd, args):
         m = mk(args[0])
         prefix = args[1] if len(args) > 1 else "pkg "
         tail = args[2] if len(args) > 2 else ""
+        if args[0].endswith("\n"): tail = ""       # END ('$') matches before ONE final newline only; the text already has it
         try: r = Requirement(prefix + ";" + args[0] + tail)
         except InvalidRequirement: r = None
         if tail and m is not None and mk(args[0] + tail) is None: return "Marker rejects the text followed by %r" % tail
